@@ -32,9 +32,11 @@ from lenskit.training import TrainingOptions as _TO
 class RecordingTrainable(Component, Trainable):
     """records (first draw of the generator it was given, interaction count) for every `train` call"""
     config: None
-    def __init__(self): self.calls = []
+    def __init__(self): self.calls = []; self.seen = []
     def train(self, data, options=_TO()):
         from lenskit.random import random_generator
+        self.seen.append((bool(options.retrain), data.interaction_count))
+        if self.calls and not options.retrain: return          # the guard every shipped component has
         self.calls.append((int(random_generator(options.rng).integers(1 << 30)) if options.rng is not None else None, data.interaction_count))
     def __call__(self, items: ItemList) -> ItemList: return items
 
@@ -69,3 +71,13 @@ class NoCfgComp(Component):
     """a component without configuration (C13: added to builders as a class and as an instance)"""
     config: None
     def __call__(self, x: int) -> int: return x + 1
+
+
+from pydantic import BaseModel as _BM
+class OptCfg(_BM):
+    level: int | None = 5          # an optional setting whose default is not None: None is a value of its own
+    label: str | None = None
+class OptComp(Component):
+    """a component with optional settings (C13: a setting that is explicitly None must survive the configuration document)"""
+    config: OptCfg
+    def __call__(self, x: int) -> int: return x + (self.config.level or 0)
